@@ -426,6 +426,8 @@ fn make_deque<T: Clone>(data: Vec<T>, head: usize) -> VecDeque<T> {
 }
 
 pub const ROLL_DRIVERS: u8 = 12;
+/// pseudo driver: `v.opt().slice(s, e)` for every window in and just outside the view
+pub const SLICE_SWEEP: u8 = 20;
 
 fn drive<V>(v: &V, driver: u8, w: usize) -> Result<(), String>
 where
@@ -468,10 +470,85 @@ where
     Ok(())
 }
 
+/// `OptIter::slice` collects a window of the view with the trusted collector: whatever it
+/// returns must be exactly the window's items; a window reaching outside the view must be
+/// refused (Err or panic), never answered with a container of elements that do not exist.
+macro_rules! slice_sweep {
+    ($v:expr, $data:expr, $viol:expr, $st:expr) => {{
+    let v = $v;
+    let data: &[f64] = $data;
+    let viol: &mut Vec<Violation> = $viol;
+    let st: &mut RunStats = $st;
+    #[allow(unused_labels)]
+    'sweep: {
+    let len = data.len();
+    let o = v.opt();
+    for s in 0..=len + 2 {
+        for e in s..=len + 2 {
+            st.executions += 1;
+            let r = guarded(|| o.slice(s, e));
+            match r {
+                Ok(Ok(w)) => {
+                    let want: Vec<Option<f64>> =
+                        data.iter().skip(s).take(e - s).map(|x| if x.is_nan() { None } else { Some(*x) }).collect();
+                    let same = w.len() == want.len()
+                        && Iterator::all(&mut w.iter().zip(&want), |(a, b)| a.map(f64::to_bits) == b.map(f64::to_bits));
+                    if e > len || w.len() != e - s || !same {
+                        viol.push(Violation {
+                            props: vec!["C09"],
+                            oracle: "H2",
+                            stage: "opt_slice".into(),
+                            detail: format!(
+                                "opt().slice({s}, {e}) on a view of length {len} returned a container of length {} ({:?}); the window holds {:?}",
+                                w.len(),
+                                w,
+                                want
+                            ),
+                        });
+                        break 'sweep;
+                    }
+                    st.hit("opt_slice_in_range");
+                },
+                _ => {
+                    if e <= len {
+                        viol.push(Violation {
+                            props: vec!["C09"],
+                            oracle: "H4",
+                            stage: "opt_slice".into(),
+                            detail: format!("opt().slice({s}, {e}) on a view of length {len} failed"),
+                        });
+                        break 'sweep;
+                    }
+                    st.hit("opt_slice_out_of_range_refused");
+                },
+            }
+        }
+    }
+    }
+    }};
+}
+
 pub fn check_roll(r: &Roll) -> (Vec<Violation>, RunStats) {
     let mut st = RunStats::default();
     let mut viol = vec![];
     let data: Vec<f64> = r.data.iter().map(|v| v.as_f64()).collect();
+    if r.driver == SLICE_SWEEP {
+        match &r.backend {
+            Backend::Vec => slice_sweep!(&data, &data, &mut viol, &mut st),
+            Backend::Array1 => {
+                let a = Array1::from_vec(data.clone());
+                slice_sweep!(&a, &data, &mut viol, &mut st)
+            },
+            _ => st.harness_error = Some(format!("{HARNESS} slice sweep needs a vec or array1 backend")),
+        }
+        let sig = format!("slice|{}|{}", r.backend.kind(), r.data.len());
+        let mut h = 0xcbf2_9ce4_8422_2325u64;
+        fnv(&mut h, sig.as_bytes());
+        st.signature = h;
+        st.digest = h ^ viol.len() as u64;
+        st.nontrivial = true;
+        return (viol, st);
+    }
     let _ = sim_log_take();
     st.executions += 1;
     let (driver, w) = (r.driver, r.window);
